@@ -1037,8 +1037,22 @@ class Interp {
               default: { std::vector<Spline<T, oa>> sp{l, r, l}; std::vector<T> cf{mk(1), mk(-2), mk(1, 2)}; (void)bspline::linearCombination(cf, sp); (void)l.checkOverlap(r); break; }
             }
           };
+          // long-lived operator / form objects with a spline factor living on the partner's grid: whatever they remember
+          // about operands they have already seen must not outlive a re-seat of the operand object either
+          Spline<T, oa> factor(q);
+          const ops::SplineOperator<T, oa> sop{factor};
+          const bspline::integration::LinearForm<ops::SplineOperator<T, oa>> lform{sop};
+          const bspline::integration::BilinearForm<ops::SplineOperator<T, oa>, ops::IdentityOperator> bform{sop, ops::IdentityOperator{}};
+          auto apply_factor = [&](unsigned which) {
+            switch (which % 3) {
+              case 0: { auto r = sop * x; if (focus & F_C10) { auto iv = inv(r); if (!iv.empty()) fail("C10", "result of a spline-factor operator: " + iv); } break; }
+              case 1: (void)lform(x); break;
+              default: (void)bform(x, x); break;
+            }
+          };
           // (1) equal grids in distinct objects are the same grid
           call("x op q with an equal grid in a distinct object", false, [&] { combine(x, q, true); combine(q, x, true); (void)sx.calcUnion(sq); (void)sq.calcIntersection(sx); (void)sx.hasSameGrid(sq); (void)sq.hasSameGrid(sx); }, F_C08);
+          call("long-lived spline-factor operator applied to an operand on an equal grid", false, [&] { apply_factor((unsigned)op.a / 7); apply_factor((unsigned)op.a / 7 + 1); }, F_C08);
           // (2) re-seat x (and the support sx) onto the grid of vb[b]
           const auto &gb = sb.getGrid();
           valid_call("re-seating assignment", [&] {
@@ -1059,6 +1073,13 @@ class Interp {
           xs = snap(x); qs = snap(q);
           call("q op x after x was re-seated onto another grid", d, [&] { combine(q, x, true); }, F_C08);
           if (d && (focus & (F_C08 | F_C14)) && (!snap(x).same(xs) || !snap(q).same(qs))) fail(focus & F_C08 ? "C08" : "C14", "a refused operation changed its arguments");
+          {
+            const bool must = d && x.getSupport().containsIntervals();  // the guard is reached on the operand's intervals
+            for (unsigned w = 0; w < 3; w++) {
+              if (must || !d) call("long-lived spline-factor operator applied after its operand object was re-seated onto another grid", must, [&] { apply_factor((unsigned)op.a / 7 + w); }, F_C08);
+              else free_call("spline-factor operator, guard unreachable", [&] { apply_factor((unsigned)op.a / 7 + w); });
+            }
+          }
           const bool ds = !same_points(sx.getGrid(), g2);
           call("support union after a re-seat", ds, [&] { (void)sx.calcUnion(sq); }, F_C08);
           call("support intersection after a re-seat", ds, [&] { (void)sq.calcIntersection(sx); }, F_C08);
